@@ -450,12 +450,16 @@ class ArcZero(object):
         for k in KINDS:
             for rev in (0, 1):
                 yield {'kind': k, 'rev': rev}
+                # ... with the arcs of the zero node written as name(number) pairs - the last one, or both
+                yield {'kind': k, 'rev': rev, 'named': 1}
+                yield {'kind': k, 'rev': rev, 'named': 2}
 
     def run_case(self, case):
         zero = ENTERPRISES + (4242, 0)
         decls = [make_decl('ot', 'helperObj', ['enterprises', 9000, 1]), make_decl('nt', 'helperNotif', ['enterprises', 9000, 2]),
                  make_decl('og', 'helperGroup', ['enterprises', 9000, 3]),
-                 {'k': 'value', 'name': 'zeroNode', 'oid': ['enterprises', 4242, 0]}]
+                 {'k': 'value', 'name': 'zeroNode', 'oid': {0: ['enterprises', 4242, 0], 1: ['enterprises', 4242, ['nil', 0]],
+                                                            2: ['enterprises', ['vendor', 4242], ['nil', 0]]}[case.get('named', 0)]}]
         sub = make_decl(case['kind'], 'subject', ['zeroNode', 5])
         decls = decls + [sub] if not case['rev'] else [sub] + decls
         imports = {'SNMPv2-SMI': ['enterprises', 'OBJECT-TYPE', 'Integer32', 'NOTIFICATION-TYPE', 'OBJECT-IDENTITY',
@@ -463,7 +467,7 @@ class ArcZero(object):
                    'SNMPv2-CONF': ['OBJECT-GROUP', 'NOTIFICATION-GROUP', 'MODULE-COMPLIANCE', 'AGENT-CAPABILITIES']}
         mods = [{'name': 'ALPHA-MIB', 'imports': sorted(imports.items()), 'decls': decls}]
         truth = {'ALPHA-MIB': {'zeroNode': zero, 'subject': zero + ((0, 5) if case['kind'] == 'trap' else (5,))}}
-        return observe(mods, truth, {'zeroNode': 'value', 'subject': case['kind']}, 'C01|E|arc-zero|%s' % case['kind'])
+        return observe(mods, truth, {'zeroNode': 'value', 'subject': case['kind']}, 'C01|E|arc-zero|%s%s' % (case['kind'], '|named-arcs' if case.get('named') else ''))
 
 
 class TableOrders(object):
